@@ -5,6 +5,9 @@ From V Require Import Base.Bytes.
 Inductive aclass := APool | ASoleImpl | AOther.
 Definition max_include_depth : nat := 100.
 Definition include_guard : bytes := (sb "len(ctx.TemplateStack) > maxIncludeDepth").
+Definition slot_chain_test : bytes := (sb "expanding = expanding || name == slotName").
+Definition slot_chain_cond : bytes := (sb "slotContent != nil && !expanding").
+Definition slot_chain_push : bytes := (sb "ctx.inheritedSlots = append(ctx.inheritedSlots[:len(ctx.inheritedSlots):len(ctx.").
 Definition unchecked_assertions : list (bytes * bytes * bytes * aclass) := [
   ((sb "interpolate.go"), (sb "interpolate"), (sb "bufferPool.Get().(*strings.Builder)"), APool);
   ((sb "node.go"), (sb "NewNode"), (sb "nodePool.Get().(*html.Node)"), APool);
